@@ -78,38 +78,42 @@ theorem C11_extrema_correct {E : Env} (hE : OracleExact E) {hook : PModel → M 
     | (.error err, s') => IsGiveUp E err ∧ L1Step r P s s' ∧ (objAt s' r).frames = (objAt s r).frames :=
   z3Extrema_spec hE hh r isMax e extra signed he s hA hsat
 
-/-! ### SolverCacheless, whole histories -/
+/-! ### SolverCacheless, whole histories over trees of branched solvers -/
 
 /-- **SolverCacheless refines the specification.** Start from a fresh `SolverCacheless()` (no tracking, Z3 solver not
 reused) and make ANY sequence of add / satisfiable / eval / min / max / solution / is_true / is_false / simplify /
-downsize calls. If the oracle answers exactly when it answers (`OracleExact`), the simplifier returns equivalent
-constraints, the cheap `is_true`/`is_false` are sound and equal ids mean equal constraints (`Reg`), then every answer
-of the model — the complete mixin stack, composed from the generated MRO — other than the give-up error is one the
-property statement allows for the constraints added so far. -/
+downsize / branch calls on any of the solvers alive (`HistOk`: the solver called exists, arguments in scope). If the
+oracle answers exactly when it answers (`OracleExact`), the simplifier returns equivalent constraints on the constraints
+of the run (`SimpOn`), the cheap `is_true`/`is_false` are sound and equal ids mean equal constraints (`Reg`), then every
+answer of the model — the complete mixin stack, composed from the generated MRO, the solvers of the tree sharing Z3
+objects as `_copy` makes them — other than the give-up error is one the property statement allows for the constraints
+added so far TO THE SOLVER THAT WAS ASKED (inherited from its parent at `branch`). -/
 theorem C11_cacheless_refines {E : Env} {R : Con → Prop} (hR : Reg R E) (hE : OracleExact E)
-    (hS : SimpOn R E) (hT : CheapSound E) (hist : List Op) (hops : ∀ op ∈ hist, InScope R op) :
-    ∀ x ∈ runHist E .SolverCacheless (World.init false false) [[]] (hist.map fun op => (0, op)),
+    (hS : SimpOn R E) (hT : CheapSound E) (hist : List (Nat × Op)) (hok : HistOk R 1 hist) :
+    ∀ x ∈ runHist E .SolverCacheless (World.init false false) [[]] hist,
       x.2.2 ≠ .err .giveUp → Judge x.1 x.2.1 x.2.2 :=
-  cl_hist hR hE hS hT hist _ _ (winv_init R) hops
+  cl_hist hR hE hS hT hist _ _ (tinv_init R) hok
 
 /-- the same with the give-up case spelled out: an answer is allowed, or it is the give-up error and the oracle did
 answer `unknown`; answers after a give-up are covered like all others (C17) -/
 theorem C11_cacheless_refines_or_gives_up {E : Env} {R : Con → Prop} (hR : Reg R E) (hE : OracleExact E)
-    (hS : SimpOn R E) (hT : CheapSound E) (hist : List Op) (hops : ∀ op ∈ hist, InScope R op) :
-    ∀ x ∈ runHist E .SolverCacheless (World.init false false) [[]] (hist.map fun op => (0, op)),
+    (hS : SimpOn R E) (hT : CheapSound E) (hist : List (Nat × Op)) (hok : HistOk R 1 hist) :
+    ∀ x ∈ runHist E .SolverCacheless (World.init false false) [[]] hist,
       JudgeOrGiveUp E x.1 x.2.1 x.2.2 :=
-  cl_hist_giveup hR hE hS hT hist _ _ (winv_init R) hops
+  cl_hist_giveup hR hE hS hT hist _ _ (tinv_init R) hok
 
-/-- one call keeps the frontend invariant and answers as allowed (or gives up honestly) -/
+/-- one call on solver `i`: answers as allowed for that solver's constraints (or gives up honestly) and keeps the invariant
+of the whole world -/
 theorem C11_cacheless_step {E : Env} {R : Con → Prop} (hR : Reg R E) (hE : OracleExact E) (hS : SimpOn R E)
-    (hT : CheapSound E) (w : World) (U : List Con) (hw : WInv R U w) (op : Op) (hop : InScope R op) :
-    JudgeOrGiveUp E (usersAfter U op) op (step E .SolverCacheless w 0 op).1 ∧
-    WInv R (usersAfter U op) (step E .SolverCacheless w 0 op).2 :=
-  cl_step hR hE hS hT w U hw op hop
+    (hT : CheapSound E) (w : World) (Us : List (List Con)) (hw : TInv R Us w) (i : Nat) (hi : i < w.fes.length)
+    (op : Op) (hop : InScope R op) :
+    JudgeOrGiveUp E (usersAfter (Us.getD i []) op) op (step E .SolverCacheless w i op).1 ∧
+    TInv R (usersAll Us i op) (step E .SolverCacheless w i op).2 :=
+  cl_step hR hE hS hT w Us hw i hi op hop
 
 /-- frontend `is_true` / `is_false` (solver half of C10): a `True` answer is never wrong, whatever the backend's cheap
 test does as long as it is sound -/
-theorem C11_is_true_false_sound {G : List Con → List Nat → List Nat → Prop} {E : Env} (hT : CheapSound E) {self : Ops}
+theorem C11_is_true_false_sound {G : St → Prop} {E : Env} (hT : CheapSound E) {self : Ops}
     (hs : SelfOk self) (U : List Con) (s : St) (h : CLInv G U s) (isTrue : Bool) (c : Con) (hc : ConWf c)
     (extra : List Con) (wf : ∀ c ∈ extra, ConWf c) :
     match clTruth E self isTrue c extra s with
